@@ -66,7 +66,7 @@ var c16Defaults = []c16Default{
 }
 
 func c16PickDefault(name string) c16Default {
-	return c16Defaults[zzsym.Choice("default:"+name, zzsym.Param("defaults", 4))]
+	return c16Defaults[zzsym.Choice("default:"+name, zzsym.Param("defaults", 3))]
 }
 
 func c16CheckDefault(d c16Default, got *string, what string) {
